@@ -595,8 +595,7 @@ def main(argv):
             "(ecdsa, json_ref, *_params_get, ...) have signatures that no theorem exercises",
             "Theorems speak about Machine.step on typed contexts (StackSig.ctx_typed: field values have their table type); inner-transaction field reads are typed `any`",
             "The subroutine signature table given to the checker is the one PyTeal's declarations imply (harness/c05.py Case.declare: arity, declared return type); a wrong table can only reject",
-            "Scratch slots are untyped in the abstraction (load pushes any): C05_no_anytype_no_type_error needs annot_strict, which programs reading typed ScratchVars into typed operands do not satisfy; "
-            "for those the last clause of the property is covered by the dynamic cross-check only",
+            "Scratch-slot types are tracked flow-sensitively inside a routine and forgotten at every callsub / stores: C05_no_anytype_no_type_error needs annot_strict, which programs reading a slot written before a call (or by another routine) into a typed operand do not satisfy; for those the last clause of the property is covered by the dynamic cross-check only",
             "Extraction: ExtrOcamlBasic + ExtrOcamlNativeString; driver.ml; harness/build.py + harness/c05_gen.py map recipes to public PyTeal constructors",
         ])
 
